@@ -49,3 +49,6 @@ theories/L1g/MSim.vos theories/L1g/MSim.vok theories/L1g/MSim.required_vos: theo
 theories/L1g/Frozen.vo theories/L1g/Frozen.glob theories/L1g/Frozen.v.beautified theories/L1g/Frozen.required_vo: theories/L1g/Frozen.v theories/L1/Model.vo theories/L1/Own.vo theories/L1/Shape.vo theories/L1/Stuck.vo theories/L1/Live.vo theories/L1/Wait.vo theories/L1/Help.vo theories/L1/Final.vo theories/L1/Pool.vo theories/L1g/Count.vo theories/L1g/MView.vo theories/L1g/MSimBase.vo theories/L1g/MSim.vo theories/L1g/MInv.vo
 theories/L1g/Frozen.vio: theories/L1g/Frozen.v theories/L1/Model.vio theories/L1/Own.vio theories/L1/Shape.vio theories/L1/Stuck.vio theories/L1/Live.vio theories/L1/Wait.vio theories/L1/Help.vio theories/L1/Final.vio theories/L1/Pool.vio theories/L1g/Count.vio theories/L1g/MView.vio theories/L1g/MSimBase.vio theories/L1g/MSim.vio theories/L1g/MInv.vio
 theories/L1g/Frozen.vos theories/L1g/Frozen.vok theories/L1g/Frozen.required_vos: theories/L1g/Frozen.v theories/L1/Model.vos theories/L1/Own.vos theories/L1/Shape.vos theories/L1/Stuck.vos theories/L1/Live.vos theories/L1/Wait.vos theories/L1/Help.vos theories/L1/Final.vos theories/L1/Pool.vos theories/L1g/Count.vos theories/L1g/MView.vos theories/L1g/MSimBase.vos theories/L1g/MSim.vos theories/L1g/MInv.vos
+theories/L1g/MainC10.vo theories/L1g/MainC10.glob theories/L1g/MainC10.v.beautified theories/L1g/MainC10.required_vo: theories/L1g/MainC10.v theories/L1/Model.vo theories/L1/Own.vo theories/L1/Shape.vo theories/L1/Stuck.vo theories/L1/Live.vo theories/L1/Wait.vo theories/L1/Help.vo theories/L1/Final.vo theories/L1/Pool.vo theories/L1g/Count.vo theories/L1g/MView.vo theories/L1g/MSimBase.vo theories/L1g/MSim.vo theories/L1g/MInv.vo theories/L1g/Frozen.vo
+theories/L1g/MainC10.vio: theories/L1g/MainC10.v theories/L1/Model.vio theories/L1/Own.vio theories/L1/Shape.vio theories/L1/Stuck.vio theories/L1/Live.vio theories/L1/Wait.vio theories/L1/Help.vio theories/L1/Final.vio theories/L1/Pool.vio theories/L1g/Count.vio theories/L1g/MView.vio theories/L1g/MSimBase.vio theories/L1g/MSim.vio theories/L1g/MInv.vio theories/L1g/Frozen.vio
+theories/L1g/MainC10.vos theories/L1g/MainC10.vok theories/L1g/MainC10.required_vos: theories/L1g/MainC10.v theories/L1/Model.vos theories/L1/Own.vos theories/L1/Shape.vos theories/L1/Stuck.vos theories/L1/Live.vos theories/L1/Wait.vos theories/L1/Help.vos theories/L1/Final.vos theories/L1/Pool.vos theories/L1g/Count.vos theories/L1g/MView.vos theories/L1g/MSimBase.vos theories/L1g/MSim.vos theories/L1g/MInv.vos theories/L1g/Frozen.vos
